@@ -224,12 +224,57 @@ pub fn check_angle(c: &AngleCase) -> CaseResult {
     Ok(CaseOk::new(c.a < 0.0 || c.a >= two_pi))
 }
 
+// ---------------------------------------------------------------------------------------------
+// the polygon of a box object with a history (vertices generated, fields edited, generated again)
+
+#[derive(Clone, Debug, Serialize, Deserialize)]
+pub struct EditedBox {
+    pub b: UB,
+    pub edits: Vec<crate::props::c08::BoxEdit>,
+}
+
+pub fn check_edited(c: &EditedBox) -> CaseResult {
+    let (mut l, cur) = crate::props::c08::apply_edits(&c.b, &c.edits);
+    // the polygon reported now is the one of the current geometry ...
+    let now = PolyCase { b: cur };
+    check_poly(&now)?;
+    let poly = l.get_vertices();
+    let fresh = cur.lib().get_vertices();
+    ensure!(poly == fresh, "polygon-edited", "get_vertices() of an edited box differs from the polygon of a fresh box with the same fields");
+    // ... and so is the cached one after generating the vertices again
+    l.gen_vertices();
+    if cur.angle.is_some() {
+        match l.get_cached_vertices() {
+            Some(p) => ensure!(*p == fresh, "polygon-regenerated", "gen_vertices() on an edited box keeps a polygon that is not the current one"),
+            None => return Err(Fail::new("polygon-regenerated", "gen_vertices() left no polygon for a rotated box")),
+        }
+    }
+    let generated_before = c.edits.iter().any(|e| matches!(e, crate::props::c08::BoxEdit::GenVertices));
+    Ok(CaseOk::new(generated_before && c.edits.len() >= 2).label_if(generated_before, "vertices_generated_before_edit"))
+}
+
+fn edited_case() -> impl Strategy<Value = EditedBox> {
+    use crate::props::c08::BoxEdit;
+    let edit = prop_oneof![
+        3 => Just(BoxEdit::GenVertices),
+        2 => (-200.0f32..200.0).prop_map(BoxEdit::SetXc),
+        2 => (-200.0f32..200.0).prop_map(BoxEdit::SetYc),
+        2 => (-3.2f32..3.2).prop_map(BoxEdit::RotateMut),
+        1 => prop_oneof![Just(None), (-3.2f32..3.2).prop_map(Some)].prop_map(BoxEdit::SetAngle),
+        1 => (0.3f32..3.0).prop_map(BoxEdit::SetAspect),
+        1 => (2.0f32..300.0).prop_map(BoxEdit::SetHeight),
+        1 => Just(BoxEdit::CloneIt),
+    ];
+    (poly_case(), proptest::collection::vec(edit, 0..6)).prop_map(|(p, edits)| EditedBox { b: p.b, edits })
+}
+
 pub fn run(env: &Env, rep: &Report) {
     rep.set_rule("boxes with positive size over 1e-2..1e4 and any angle; equality pairs differing in exactly one coordinate by +-delta across the EPS boundary, both argument orders, both box types; angles to |a|<=1e3 and around multiples of pi/2. Non-trivial: rotated polygon; equality pair outside the 0.9..1.1 EPS band with non-zero difference; angle outside [0,2pi); distinct = distinct serialized case");
     rep.assume("equality threshold is three-valued: |difference| in [0.9 EPS, 1.1 EPS] accepts either answer");
     let w = workers();
     par_generated(rep, "ltwh", ltwh_case, env.tier.pick(1_000_000, 20_000_000), w, check_ltwh);
     par_generated(rep, "polygon", poly_case, env.tier.pick(1_000_000, 20_000_000), w, check_poly);
+    par_generated(rep, "edited-polygon", edited_case, env.tier.pick(500_000, 8_000_000), w, check_edited);
     par_generated(rep, "equality", eq_case, env.tier.pick(2_000_000, 40_000_000), w, check_eq);
     par_generated(rep, "normalize", angle_case, env.tier.pick(1_000_000, 20_000_000), w, check_angle);
 }
@@ -238,6 +283,7 @@ pub fn replay(sub: &str, case: Value) -> Option<CaseResult> {
     match sub {
         "ltwh" => Some(replay_case(case, check_ltwh, sub)),
         "polygon" => Some(replay_case(case, check_poly, sub)),
+        "edited-polygon" => Some(replay_case(case, check_edited, sub)),
         "equality" => Some(replay_case(case, check_eq, sub)),
         "normalize" => Some(replay_case(case, check_angle, sub)),
         _ => None,
